@@ -29,7 +29,9 @@ Inductive tcase :=
 (* ResponseUnpack *)
 | PRsp (pkg : hexs) (obs : dobs)
 (* ParsePackage *)
-| PParse (buf : hexs) (n st : N).
+| PParse (buf : hexs) (n st : N)
+(* Protocol.InvokeTimeout: the reply (None: it panicked) *)
+| PTmo (pkg : hexs) (reply : option hexs).
 
 Definition rq := sid_requestf_RequestPacket.
 Definition rs := sid_requestf_ResponsePacket.
@@ -78,5 +80,13 @@ Definition tcase_check (c : tcase) : bool :=
       end
   | PParse buf n st =>
       let '(n', st') := parse_package c_maxPackageLength (unhex buf) in (n =? n') && (st =? st')
+  | PTmo pkg reply =>
+      match invoke_timeout env0 rq rs c_TUPVERSION (unhex pkg), reply with
+      | DOk bs _, Some o => bytes_eqb bs (unhex o)
+      | DErr, Some _ => true          (* built from a partially read request: not predicted *)
+      | DHuge, Some _ => true
+      | DPanic _, None => true
+      | _, _ => false
+      end
   end.
 Definition tcase_mismatches (off : N) (cs : list tcase) : list N := failing_from tcase_check off cs.
